@@ -141,7 +141,7 @@ def run_witness(w):
         r1 = outcome(F.from_dict, {'a': {'b': 1, 'c': 2}, 'zzz': 3})
         r0 = outcome(F.from_dict, {'a': {'b': 1, 'c': 2}})
         return {'accepted_unknown': 'ok' in r1, 'plain_ok': 'ok' in r0, 'r1': r1}
-    if w['kind'] == 'F22':
+    if w['kind'] == 'F41':
         from dataclass_wizard import fromdict, CatchAll
 
         @dataclasses.dataclass
